@@ -9,8 +9,12 @@ spelling) from `rng`.
 
 Base styles use only lexical forms the PEG grammar is expected to accept at each position
 (`_` positions: blanks and single-line /* */ comments; `__` positions: also newlines and line
-comments).  A *hazard* is one extra, Thrift-valid lexical choice that the pinned grammar
-mishandles; hazard cases carry the hazard's name so that a failure can be attributed exactly.
+comments).  A *hazard* is one extra, Thrift-valid lexical choice that the grammar still
+mishandles (HAZARDS; a failure carries the hazard's name so that it can be attributed exactly to
+its known finding).  REPAIRED lists the constructs the pinned grammar mishandled and the repaired
+one accepts (keyword-prefixed names, escapes in literals, ';' in constant maps, a comment after
+`prefix`): they are now ordinary choices of the generator and the renderer, and in addition each
+gets targeted cases whose failure is an ordinary violation.
 """
 
 BASE_TYPES = [b"bool", b"byte", b"i16", b"i32", b"i64", b"double", b"string", b"binary"]
@@ -20,10 +24,11 @@ KEYWORDS = {b"include", b"namespace", b"const", b"enum", b"typedef", b"struct", 
             b"service", b"scope", b"extends", b"throws", b"oneway", b"void", b"required", b"optional",
             b"map", b"set", b"list", b"cpp_type", b"prefix", b"true", b"false"} | set(BASE_TYPES)
 
-HAZARDS = ["basetype_prefixed_type", "modifier_prefixed_type", "oneway_prefixed_return_type",
-           "void_prefixed_return_type", "bool_prefixed_const_ref", "newline_inside_declaration",
-           "comment_after_prefix_keyword", "const_map_semicolon_separator",
-           "literal_trailing_backslash", "escaped_other_quote_in_literal", "enum_ref_constant"]
+HAZARDS = ["newline_inside_declaration", "enum_ref_constant"]
+REPAIRED = ["basetype_prefixed_type", "modifier_prefixed_type", "oneway_prefixed_return_type",
+            "void_prefixed_return_type", "bool_prefixed_const_ref",
+            "comment_after_prefix_keyword", "const_map_semicolon_separator",
+            "literal_trailing_backslash", "escaped_other_quote_in_literal"]
 
 LETTERS = b"abcdefghijklmnopqrstuvwxyzABCDEFGHIJKLMNOPQRSTUVWXYZ"
 DIGITS = b"0123456789"
@@ -70,10 +75,29 @@ class Gen:
         raise RuntimeError("cannot find a fresh identifier")
 
     def type_name(self):
-        return self.ident(avoid=TYPE_POS_BAD_PREFIX)
+        # names that begin with a type-position keyword (i32x, optionalThing, onewayTicket, voidable) are
+        # ordinary type names since the repair of C10-F8a..d: favour them
+        if self.rng.random() < 0.15:
+            for _ in range(20):
+                name = self.rng.choice(TYPE_POS_BAD_PREFIX) + self.rng.choice([b"x", b"List", b"_data", b"2", b"Value", b"_", b"able"])
+                low = name[:1].lower() + name[1:]
+                if name not in KEYWORDS and name not in self.used and low not in self.used \
+                        and (name[:1].upper() + name[1:]) not in self.used:
+                    self.used.add(name)
+                    return name
+        return self.ident()
 
     def const_name(self):
-        return self.ident(avoid=CONST_REF_BAD_PREFIX)
+        # likewise names that begin with true / false (C10-F8e)
+        if self.rng.random() < 0.15:
+            for _ in range(20):
+                name = self.rng.choice(CONST_REF_BAD_PREFIX) + self.rng.choice([b"Value", b"_", b"y", b"1", b"Flag"])
+                low = name[:1].lower() + name[1:]
+                if name not in KEYWORDS and name not in self.used and low not in self.used \
+                        and (name[:1].upper() + name[1:]) not in self.used:
+                    self.used.add(name)
+                    return name
+        return self.ident()
 
     # ---- pieces ------------------------------------------------------------------------------
     def text(self, maxlen=12, rich=True):
@@ -90,9 +114,8 @@ class Gen:
                 out += rng.choice([b"\n", b"\t", b"\r", b"\\"])
             else:
                 out += chr(rng.choice([0xe9, 0x3b1, 0x20ac, 0x1f600, 0x4e2d, 0xa0, 0x2028])).encode("utf8")
-        # base styles cannot express a string that ends in a backslash (see hazard literal_trailing_backslash)
-        while out.endswith(b"\\"):
-            out.pop()
+        if rich and rng.random() < 0.05:
+            out += b"\\"       # a value that ends in a backslash (C10-F19, repaired)
         return bytes(out)
 
     def anns(self, p=0.25):
@@ -578,9 +601,11 @@ class Renderer:
                 out += b"\\" + q
                 self.features.add("escaped_quote")
             elif c == other:
-                if self.hazard == "escaped_other_quote_in_literal" and not self.hazard_used:
+                # the other kind of quote may be written bare or escaped (C10-F20, repaired)
+                if (self.hazard == "escaped_other_quote_in_literal" and not self.hazard_used) or rng.random() < 0.3:
                     self.hazard_used = True
                     out += b"\\" + other
+                    self.features.add("escaped_other_quote")
                 else:
                     out += other
             elif c == b"\\":
@@ -735,8 +760,18 @@ class Renderer:
                 if self.hazard == "const_map_semicolon_separator" and not self.hazard_used and not last:
                     self.hazard_used = True
                     self.tok(b";")
+                elif not last and not self.plain and rng.random() < 0.15:
+                    # no separator at all (Thrift's CommaOrSemicolonOptional; C10-F23, repaired)
+                    self.features.add("const_map_no_separator")
+                    if not self.out[-1:].isspace():
+                        self.tok(b" ")
                 elif not last or rng.random() < 0.5:
-                    self.tok(b",")
+                    # ',' or ';' (C10-F18, repaired)
+                    if rng.random() < 0.25:
+                        self.tok(b";")
+                        self.features.add("const_map_semicolon")
+                    else:
+                        self.tok(b",")
                 self.gf()
             self.tok(b"}")
 
@@ -955,8 +990,10 @@ class Renderer:
                 if self.out[-1:] not in (b" ", b"\t", b"\r", b"\n", b"/"):
                     self.tok(b" ")
                 self.tok(b"prefix")
-                if self.hazard == "comment_after_prefix_keyword":
+                if self.hazard == "comment_after_prefix_keyword" or (not self.plain and rng.random() < 0.2):
+                    # a comment between the keyword and the prefix (C10-F17, repaired)
                     self.hazard_used = True
+                    self.features.add("comment_after_prefix")
                     self.tok(rng.choice([b" /* topic */ ", b" // the topic\n   ", b"/*x*/"]))
                 else:
                     self.tok(rng.choice([b" ", b"  ", b"\t", b"\n  "]))
@@ -995,7 +1032,8 @@ class Renderer:
 
 
 # --------------------------------------------------------------------------------------------------
-# hazards: one Thrift-valid construct that the pinned grammar / validation mishandles, in a small model
+# hazards and repaired constructs: one Thrift-valid construct that the pinned grammar / validation mishandled, in a
+# small model
 
 def _t(name):
     return {"name": name, "key": None, "val": None, "anns": []}
@@ -1061,9 +1099,7 @@ def hazard_model(gen, hazard):
     elif hazard == "escaped_other_quote_in_literal":
         decls.append(("const", D(gen.const_name(), type=_t(b"string"), value=("str", b"it's a \"quote\""))))
     elif hazard == "enum_ref_constant":
-        # the enum's name is used at a type position and as the head of a constant reference: keep it clear of
-        # both families of keyword prefixes (those are the hazards basetype_prefixed_type / bool_prefixed_const_ref)
-        e = gen.ident(avoid=TYPE_POS_BAD_PREFIX + CONST_REF_BAD_PREFIX)
+        e = gen.ident()
         decls.append(("enum", D(e, values=[{"doc": None, "name": b"A", "explicit": None, "anns": []},
                                            {"doc": None, "name": b"B", "explicit": None, "anns": []}])))
         decls.append(("const", D(gen.const_name(), type=_t(e), value=("ident", e + b".B"))))
